@@ -92,7 +92,8 @@ def views (k : Key) (alg : Option Alg) : List (String × Json) :=
 
 def jkey (k : Key) : Json :=
   Json.mkObj ([("alg", Json.str k.alg.name), ("secret", jres jhex (toSecretBytes k)), ("public", jres jhex (toPublicBytes k)),
-    ("jwk_secret", jtext (toJwk k .secretKey none))] ++ views k none
+    ("jwk_secret", jtext (toJwk k .secretKey none)), ("public_len", jres jnat (publicBytesLen k)),
+    ("secret_len", jres jnat (secretBytesLen k))] ++ views k none
     ++ (if k.alg = .blsG1G2 then
           [("g1", Json.mkObj (views k (some .blsG1))), ("g2", Json.mkObj (views k (some .blsG2)))]
         else []))
@@ -180,6 +181,13 @@ def runCase (j : Json) : Json :=
             | some p => Json.mkObj [("parts", jparts p)] | none => jerr "Invalid")]
         | .err e => jerr e.name
         | .panic _ => jerr "Panic"
+  else if kind == "c14:typed" then
+    match algOfName (str! j "type") with
+    | none => jerr "unknown alg"
+    | some alg =>
+      jres (fun k => Json.mkObj [("alg", Json.str k.alg.name), ("secret", jres jhex (toSecretBytes k)),
+        ("public", jres jhex (toPublicBytes k)), ("public_len", jres jnat (publicBytesLen k)),
+        ("secret_len", jres jnat (secretBytesLen k))]) (fromJwkTyped cfg P alg (hex! j "hex"))
   else if kind == "c14:keypair" then
     match algOfName (str! j "alg") with
     | none => jerr "unknown alg"
